@@ -67,6 +67,11 @@ CHECKS = {
             "Generated tree programs are cut at a drawn crash point and the with-block is left by every kind of closer (normal, private exception, explicit close, fetch_active_workspace mode change, save_as, exception after close). The file must re-open, be structurally valid and equal the model of the completed operations, no HDF5 identifier may stay open, previously obtained entities must raise the closed-file error or return what the file holds, and open() must restore access.",
             "Crash points are between API operations only (no process kill); one refused setter per case because a refused setter may legitimately have changed memory.",
             "DESIGN.md 3/C11"),
+    "C19": ("faults", "fault_enumeration",
+            "exhaustive single-deletion fault enumeration over generated files (every attribute and every link on the canonical paths), differential against the intact file's API snapshot",
+            "For each generated file every single deletion of one attribute or one link is applied to a copy with plain h5py and the copy is opened read-only; optional items must be tolerated with all entities present and unrelated content unchanged, mandatory/other items may raise or drop only the described entities and their descendants. The per-file fault space is enumerated completely; files are sampled.",
+            "Classification optional / mandatory / other follows the property statement and the '(Optional)' / default marks of the format documentation; only single deletions.",
+            "DESIGN.md 3/C19"),
 }
 
 NOT_APPLICABLE = {}
@@ -111,6 +116,8 @@ def main():
         "engines": [
             {"name": "tree", "path": "vp/engines/tree.py", "serves_properties": ["C01", "C02", "C05", "C06", "C09", "C12"],
              "kind_free_text": "Hypothesis strategy for operation programs + interpreter with reference model over groups/objects/data/property groups"},
+            {"name": "faults", "path": "vp/props/c19.py", "serves_properties": ["C19"],
+             "kind_free_text": "single-deletion fault enumeration over tree-built files"},
             {"name": "closing", "path": "vp/props/c11.py", "serves_properties": ["C11"],
              "kind_free_text": "tree prefix + with-block + closers + closed-access differential"},
             {"name": "readonly", "path": "vp/props/c10.py", "serves_properties": ["C10"],
